@@ -584,6 +584,24 @@ pub fn workload_hash(w: &Workload) -> u64 {
 // ---------------------------------------------------------------------------------------
 // generation
 
+/// Spec only, with the full range of set sizes (including the huge ones): used by the
+/// cross-process / permutation sampler, which runs no schedules and can afford them.
+pub fn generate_big_spec(seed: u64) -> Spec {
+    let mut rng = Rng::new(seed);
+    let opts = GenOpts {
+        variant: None,
+        kinds: &[Kind::Standard, Kind::Standard, Kind::LeftmostLongest, Kind::LeftmostFirst],
+        wide_max: 400,
+        tiny: false,
+        big_cp_of_8: 2,
+    };
+    let (mut spec, _) = gen::gen_spec(&mut rng, &opts);
+    if spec.entry == Entry::Indices && spec.vtype == VType::U8 && spec.patterns.len() > 255 {
+        spec.vtype = VType::U32;
+    }
+    spec
+}
+
 pub fn generate(seed: u64) -> Workload {
     let mut rng = Rng::new(seed);
     let opts = GenOpts {
